@@ -142,9 +142,14 @@ def run(ctx):
         raise core.MachineryError("vacuous model: %s %s" % (kinds, ops))
     ctx.traces = len(res.cases) + len(resb.cases)
     ctx.extra.update({"histories_by_kind": kinds, "pure_cases": ops})
+    from .. import tracedrv
+    tracedrv.trace_check(ctx, 150 if ctx.tier == "quick" else 1200, 6 if ctx.tier == "quick" else 8)
     ctx.rule = "every history (state of MC_C09) is replayed twice with different final read orders; every pure case once"
     ctx.assumptions = ["1e-9 relative tolerance", "weights from {1/2,1,2,3}, scale factors 1/2 and 3"]
 
 
 def replay(ctx, v):
+    if "trace" in v["full"]:
+        from .. import tracedrv
+        return tracedrv.replay_trace(ctx, v["full"])
     (check_history if "hist" in v["full"] else check_pure)(ctx, v["full"])
